@@ -93,8 +93,8 @@ def ident_list(s1: str, s2: str, s3: Optional[str], a: int) -> bool:
 
 
 OBLIGATIONS = [
-  {"func": "col_ident", "cond_timeout": 240, "desc": "column id valid, unused case-insensitively, identity on valid unused names"},
-  {"func": "table_ident", "cond_timeout": 240, "desc": "table id valid, starts uppercase, unused, identity on valid unused names"},
+  {"func": "col_ident", "cond_timeout": 150, "desc": "column id valid, unused case-insensitively, identity on valid unused names"},
+  {"func": "table_ident", "cond_timeout": 150, "desc": "table id valid, starts uppercase, unused, identity on valid unused names"},
   {"func": "none_ident", "cond_timeout": 60, "desc": "no requested name"},
 ]
 _ONE = [""] + list(ALPHA)
